@@ -1140,6 +1140,11 @@ func (ex *Exec) checkCallSite(call *ast.CallExpr, st *State) {
 		}
 	}
 	for k, c := range cs {
+		if c.Scope {
+			ex.note("SCOPE RESTRICTION (assumed): at " + text + " #" + fmt.Sprint(ord) + " in " + f.fn.Short + ": " + c.Text)
+			st.assume(ex.evalClause(c, st, f.oldSt, bind))
+			continue
+		}
 		g := ex.evalClause(c, st, f.oldSt, bind)
 		ex.check(st, g, "callsite-requires", call, fmt.Sprintf("callsite:%s#%d/requires#%d", text, ord, k))
 	}
